@@ -1,7 +1,7 @@
-HOOK_COMMITS = ["341cf12"]
+HOOK_COMMITS = ["341cf12", "11958cd"]
 NOTES = ("Verdicts come only from property monitors evaluated by TLC on events recorded from the real code; a "
          "conformance divergence between code and specification is reported in the evidence but is never a violation. "
-         "Fix commits in /repo: 00358e6 (F7), c768102 (F1); see known_findings.json.")
+         "Fix commits in /repo: 00358e6 (F7), c768102 (F1), 92c7e00 (F5), 905c7fb (F2); known findings F6, F8; see known_findings.json.")
 _A = ("rig A (fake client / metadata / consumer around the real stream, observer and checkpoint code); "
       "gate-level atomicity; bounded constants of the TLC configurations; TLC, the Go runtime and the harness are trusted")
 CHECKS = {
@@ -26,4 +26,44 @@ CHECKS = {
                     "branch; out-of-snapshot event stops the client), re-evaluated on real-code traces.",
             "ref": "6/C06", "note": _A, "technique": "TLA+ model checking (TLC) + schedule replay on real code + TLC trace monitors"},
 }
+
+_T = "TLA+ model checking (TLC) + schedule replay on real code + TLC trace monitors"
+CHECKS.update({
+    "C03": {"text": "Core.tla lets the SERVER choose every next event (snapshot layouts, mutation/deletion/expiration, system, "
+                    "seqno-advanced, key classes incl. reserved prefixes, events before skipUntil, rollback on open, crash and "
+                    "resume mid-snapshot); TLC checks exhaustively that the consumer sees exactly the expected document events in "
+                    "order, once; the same expectation monitor runs on real-code traces of TLC-generated schedules.",
+            "ref": "6/C03", "note": _A + "; field fidelity beyond kind/seqno/key class/offset is not yet covered", "technique": _T},
+    "C08": {"text": "rollback on stream open as an environment choice in Core.tla (any R <= F): after it nothing at or below F "
+                    "is shown, everything above is, offsets carry the new branch uuid; exhaustive in TLC, monitored on rig-A "
+                    "traces (the fake client plays the part of client.OpenStream's rollback path; the second stream request "
+                    "on the wire is a rig-B item).",
+            "ref": "6/C08", "note": _A + "; the real client.openStreamWithRollback is not exercised by rig A", "technique": _T},
+    "C11": {"text": "lifecycle part of Core.tla (notifications from bus, API and re-armed timer; rebalance lock; Close up to "
+                    "per-vBucket CloseStream; timers; re-open through Load/SeqNos/OpenStream; wait goroutines and finish tokens) "
+                    "checked exhaustively against the bracket grammar of callbacks, one close per burst, range of the most "
+                    "recent membership, no delivery while closed, no stop by a rebalance; real dcp.Start/close + stream code "
+                    "driven through the same schedules. Found F5 and F2 (repaired), F6 and F8 (known findings).",
+            "ref": "6/C11", "note": _A + "; the rebalance delay itself is not timed (timers are fired by the driver)", "technique": _T},
+    "C12": {"text": "stream ends of every cause as environment actions in Core.tla: transient => re-open from the latest settled "
+                    "position, anything else final; active count = assigned minus finally ended; stop only when all ended; "
+                    "exhaustive in TLC, monitored on real-code traces.",
+            "ref": "6/C12", "note": _A + "; failing re-opens (1 s back-off, give up after 5) are not explored", "technique": _T},
+    "C13": {"text": "dcp.Close() as an action of Core.tla enabled in every lifecycle state the model distinguishes (open, mid-save, "
+                    "after a rebalance closed the stream, during the delay, after re-open): no crash, final save makes settled "
+                    "positions durable, every stream closed, nothing delivered or requested afterwards; real dcp.close driven "
+                    "through TLC schedules. Close during the re-open is known finding F8.",
+            "ref": "6/C13", "note": _A + "; 'returns in bounded time' is checked as: the driver's schedule reaches CloseReturn", "technique": _T},
+    "C14": {"text": "reserved-key document events (connector prefix, transaction prefix) generated by the model's server: never "
+                    "shown to the consumer, advance the position, never cause a checkpoint write on their own; exhaustive in TLC "
+                    "and monitored on real-code traces. Key construction for group names / vBucket ids is a rig-B item.",
+            "ref": "6/C14", "note": _A, "technique": _T},
+    "C15": {"text": "every injected failure of metadata load, seqno query, failover-log query and stream open, every flushed "
+                    "vBucket (checkpoint ahead of the high seqno) is an environment action of Core.tla; TLC checks exhaustively "
+                    "that the session is all-or-nothing, never requests beyond what the server reached and dies instead of "
+                    "running; the real code runs the same schedules in child processes (a panic ends the run with Died).",
+            "ref": "6/C15", "note": _A + "; unknown metadata/membership type strings and retry exhaustion on re-open not yet covered",
+            "technique": _T},
+})
+
 NOT_APPLICABLE = {}
